@@ -2421,7 +2421,13 @@ class BDD(dd._abc.BDD[_Ref]):
                 f'Unknown file type of "{filename}"')
         umap, roots = self._load_pickle(
             filename, levels=levels)
+        # dumped without naming roots ?
+        if roots is None:
+            return list()
         def map_node(u):
+            # constant ?
+            if abs(u) == 1:
+                return u
             v = umap[abs(u)]
             if u < 0:
                 return - v
